@@ -509,6 +509,12 @@ def run(chk):
         [st(".p as $p | .s | test($p)", YDOC9), st(".p as $p | .s | test($p)", YDOC10), st(".p as $p | .s | test($p)", YDOC9)],
         [st(".p as $p | .s | sub($p; \"X\")", YDOC10), st(".p as $p | .s | sub($p; \"X\")", YDOC9)],
     ]
+    # a literal reached through an EMPTY context (the producer before it yields nothing) and then updated in place,
+    # on a kept tree: valueOperator must hand out a copy there too (seeded change C18-k)
+    EDOC = "n: []\na: 1\n"
+    for e in (".n[] | 3 | . += 4", "[.n[] | true | . = false]", ".k = [.n[] | 1 | . *= 2]", ".n[] | null | . = 5",
+              ".n[] | 2 | . tag = \"!!str\"", ".z[] | 6 | . -= 1"):
+        fixed.append([st(e, EDOC), st(e, EDOC), st(e, YDOC7), st(e, EDOC, all=True), st(e, EDOC + "---\n" + EDOC), st(e, EDOC, reuse_tree=False)])
     # one Encoder instance over documents with and without leading comments, every output format
     for of in ("xml", "props", "lua", "shell", "json", "yaml", "toml"):
         fixed.append([st(".", YDOC11, out=of, reuse_enc=True, reuse_tree=False), st(".", YDOC12, out=of, reuse_enc=True, reuse_tree=False),
